@@ -62,6 +62,14 @@ MATRIX = [
     dict(entry="cli_normalize", mode="content", initial="absent", base_hash="none", parent_missing=1),
     dict(entry="cli_seal", mode="content", initial="canonical", base_hash="none"),
     dict(entry="cli_seal", mode="content", initial="absent", base_hash="none"),
+    dict(entry="cli_write", mode="content", initial="canonical", base_hash="current", stdin=True),
+    dict(entry="cli_write", mode="content", initial="absent", base_hash="none", stdin=True, new_style="unicode"),
+    dict(entry="tool", mode="changes", initial="crlf", base_hash="current"),
+    dict(entry="tool", mode="normalize", initial="crlf", base_hash="current"),
+    dict(entry="tool", mode="content", initial="crlf_frontmatter", base_hash="current", new_style="unicode"),
+    dict(entry="cli_write", mode="changes", initial="crlf", base_hash="current"),
+    dict(entry="tool", mode="content", initial="canonical", base_hash="none", new_style="longline"),
+    dict(entry="tool", mode="content", initial="canonical", base_hash="none", new_style="nonl"),
     dict(entry="cli_hydrate", mode="content", initial="absent", base_hash="none"),
     dict(entry="cli_hydrate", mode="content", initial="canonical", base_hash="none", fmode=0o600),
 ]
@@ -83,11 +91,11 @@ def gen_scenario(t: Tape, idx: int, tier: str) -> dict:
             sc["mode"] = "content"
         if sc["mode"] in ("changes", "normalize"):
             sc["initial"] = t.weighted([("canonical", 4), ("lenient", 2), ("frontmatter", 2), ("corpus", 3),
-                                        ("unparseable", 1), ("nonutf8", 1), ("big", 1)], "sc.init")
+                                        ("unparseable", 1), ("nonutf8", 1), ("big", 1), ("crlf", 2), ("crlf_frontmatter", 1)], "sc.init")
         else:
             sc["initial"] = t.weighted([("canonical", 4), ("absent", 3), ("lenient", 1), ("frontmatter", 2),
-                                        ("corpus", 2), ("unparseable", 1), ("empty", 1), ("nonutf8", 1), ("big", 1)],
-                                       "sc.init")
+                                        ("corpus", 2), ("unparseable", 1), ("empty", 1), ("nonutf8", 1), ("big", 1), ("crlf", 1),
+                                        ("crlf_frontmatter", 1)], "sc.init")
         sc["base_hash"] = t.weighted([("none", 4), ("current", 4), ("stale", 1)], "sc.bh")
         if sc["initial"] == "absent":
             sc["parent_missing"] = t.weighted([(0, 3), (1, 2), (2, 1)], "sc.pm")
@@ -109,9 +117,13 @@ def gen_scenario(t: Tape, idx: int, tier: str) -> dict:
             if a:
                 sc["args"] = a
             if not a.get("lenient"):
-                sc["new_style"] = t.weighted([("canonical", 5), ("frontmatter", 1), ("corpus", 2), ("big", 1)], "sc.ns3")
+                sc["new_style"] = t.weighted([("canonical", 5), ("frontmatter", 1), ("corpus", 2), ("big", 1), ("unicode", 2),
+                                              ("longline", 1), ("nonl", 1), ("trail", 1)], "sc.ns3")
         if entry == "tool" and sc["mode"] != "content" and t.flag(60, "sc.dry2"):
             sc["args"] = {"corrections_only": True}
+        if entry == "cli_write" and sc["mode"] == "content":
+            sc["stdin"] = bool(t.choose(2, "sc.stdin"))
+            sc["new_style"] = t.pick(["canonical", "unicode", "nonl"], "sc.cns")
     sc.setdefault("parent_missing", 0)
     sc.setdefault("fmode", 0o644)
     sc.setdefault("args", {})
@@ -143,6 +155,10 @@ def _initial_bytes(t: Tape, kind: str, marker: str, big: int) -> bytes | None:
         return docs.gen_doc(t, marker, "lenient").encode()
     if kind == "frontmatter":
         return docs.gen_doc(t, marker, "frontmatter").encode()
+    if kind == "crlf":
+        return docs.canonical(docs.gen_doc(t, marker)).replace("\n", "\r\n").encode()
+    if kind == "crlf_frontmatter":
+        return docs.gen_doc(t, marker, "frontmatter").replace("\n", "\r\n").encode()
     if kind == "corpus":
         c = docs.corpus()
         return c[t.choose(len(c), "corpus")][1].encode()
@@ -247,7 +263,8 @@ def base_hash_value(sc: dict, which: str | None = None):
         if init is None:
             return sha_text("")
         try:
-            return sha_text(init.decode("utf-8"))
+            # the tools' own notion of the file's hash: the text as read in universal-newline mode
+            return sha_text(init.decode("utf-8").replace("\r\n", "\n").replace("\r", "\n"))
         except UnicodeDecodeError:
             return sha_bytes(init)
     if which == "stale":
@@ -285,13 +302,18 @@ def make_call(sc: dict, root: str, target_rel: str, writer: dict | None = None):
         import json
 
         args = ["write", target]
+        stdin_text = None
         if w["mode"] == "content":
-            args += ["--content", w["new_text"]]
+            if w.get("stdin"):
+                args += ["--stdin"]
+                stdin_text = w["new_text"]
+            else:
+                args += ["--content", w["new_text"]]
         else:
             args += ["--changes", json.dumps(w["changes"])]
         if bh is not None:
             args += ["--base-hash", bh]
-        return lambda: run_cli(args)
+        return lambda: run_cli(args, stdin_text)
     if entry in ("cli_normalize", "cli_seal"):
         args = [entry[4:], os.path.join(root, "sb/source.oct.md"), "-o", target]
         return lambda: run_cli(args)
